@@ -43,6 +43,10 @@ class _QueuedResourceWorkerAdapter(Entity):
     _resource: QueuedResource
 
     def handle_event(self, event: Event):
+        # A crashed or paused resource executes nothing: queued work reaching its
+        # worker is dropped like any other event for it (same gate as Event.invoke).
+        if getattr(self._resource, "_crashed", False):
+            return None
         return self._resource.handle_queued_event(event)
 
     def has_capacity(self) -> bool:
